@@ -58,7 +58,10 @@ THEOREM ThresholdIsMultiple ==
   <1>1. a \in Nat /\ n \in Nat /\ n > 0 /\ a >= n OBVIOUS
   <1>2. a = n * k + m /\ m \in 0..(n-1) /\ k \in Nat BY <1>1, DivMod
   <1>3. T(M, n) = n * k BY <1>2 DEF T
-  <1>4. (n * k + 0) % n = 0 /\ (n * k + 0) \div n = k BY <1>1, <1>2, DivModUnique
+  <1>4. (n * k + 0) % n = 0 /\ (n * k + 0) \div n = k
+    <2>1. k \in Nat /\ n \in Nat /\ n > 0 /\ 0 \in 0..(n-1) BY <1>1, <1>2
+    <2> HIDE DEF a, k, m
+    <2> QED BY <2>1, DivModUnique
   <1>5. k >= 1
     <2>1. CASE k = 0 BY <2>1, <1>1, <1>2
     <2> QED BY <2>1, <1>2
